@@ -3,7 +3,7 @@ import ast
 import z3
 
 from .vals import (Val, PyList, PyDict, ExcVal, Callable_, Int, Bool, Str, NoneT, NONE, Ty, TInt, TBool, TStr, TBytes, TNone, TRef,
-                   TOpt, TSet, TMap, TSeq, TTuple, TRec, TOpaque, mk_int, mk_bool, mk_str, fresh, mk_none_opt, mk_some,
+                   TOpt, TSet, TMap, TSeq, TTuple, TRec, TOpaque, TLSet, mk_int, mk_bool, mk_str, fresh, mk_none_opt, mk_some,
                    opt_isnone, opt_inner, empty_set, empty_map, empty_seq, coerce, veq, truth, ite_val, fresh_name)
 from .state import Unsupported, Raise, State, feasible
 from . import dsl
@@ -113,6 +113,25 @@ class ContractMixin:
                 st.heap, st.alloc = saved_heap, saved_alloc
             yield st, v
             return
+        if name == "setof":
+            lam = node.args[0]
+            if not isinstance(lam, ast.Lambda) or len(lam.args.args) != 1:
+                raise Unsupported("setof(lambda x: cond)", node)
+            ety = Str
+            if len(node.args) > 1:
+                tv = self.ev1(node.args[1], st)
+                ety = tv.obj if isinstance(tv, Callable_) else ety
+            (es,) = ety.comps()
+            x = z3.Const(fresh_name("sx"), es)
+            frame = dict(st.env)
+            frame[lam.args.args[0].arg] = Val(ety, [x])
+            st.frames.append(frame)
+            try:
+                c = truth(self.ev1(lam.body, st))
+            finally:
+                st.frames.pop()
+            yield st, Val(TSet(ety), [z3.Lambda([x], c)])
+            return
         raise Unsupported("quantifier %s: write the goal over a skolem constant / array equality instead" % name, node)
 
     def dsl_fn(self, name, args, kwargs, st, node):
@@ -166,6 +185,25 @@ class ContractMixin:
         if name == "typeof":
             from .calls import TYP
             return mk_int(TYP(args[0].t))
+        if name == "elems":
+            x = args[0]
+            if isinstance(x.ty, TLSet):
+                return Val(TSet(x.ty.elem), [x.terms[0]])
+            if isinstance(x.ty, TSet):
+                return x
+            raise Unsupported("elems(%r)" % x.ty, node)
+        if name == "distinct":
+            return mk_bool(args[0].terms[1]) if isinstance(args[0].ty, TLSet) else mk_bool(True)
+        if name == "aslist":
+            return Val(TLSet(args[0].ty.elem), [args[0].t, z3.BoolVal(True)])
+        if name == "has":
+            return mk_bool(self.contains(args[0], args[1], node))
+        if name in ("str_init", "str_last", "str_first"):
+            from .strings import SplitVal, init_seg, last_seg, first_seg
+            sv = SplitVal(args[0].t, args[1].t)
+            sv.facts(st, self)
+            f = {"str_init": init_seg, "str_last": last_seg, "str_first": first_seg}[name]
+            return mk_str(f(args[0].t, args[1].t))
         if name == "cast":
             return Val(TRef(z3.simplify(args[1].t).as_string()), args[0].terms)
         if name == "const":
@@ -196,6 +234,11 @@ class ContractMixin:
                     frame[s.targets[0].id] = self.ev1(s.value, st)
                 elif isinstance(s, ast.Pass):
                     pass
+                elif isinstance(s, ast.Expr) and isinstance(s.value, ast.Call) and isinstance(s.value.func, ast.Name) \
+                        and s.value.func.id in dsl.REG.lemmas:
+                    # a lemma instance: its precondition is an obligation here, its conclusion a fact
+                    args = [self.ev1(a, st) for a in s.value.args]
+                    self.apply_lemma(dsl.REG.lemmas[s.value.func.id], args, st, s)
                 else:
                     raise Unsupported("contract bodies are straight-line (directives and let-bindings)", s)
         finally:
@@ -217,9 +260,14 @@ class ContractMixin:
             st.ghost, st.pure, st.old = saved
         return truth(v) if as_bool else v
 
-    def coerce_args(self, decl, env, node):
+    def coerce_args(self, decl, env, node, st=None):
         for n, t in decl.params.items():
             if n in env and isinstance(t, Ty):
+                v = env[n]
+                if st is not None and isinstance(v, Val) and isinstance(v.ty, TOpt) and not isinstance(t, (TOpt, TNone)):
+                    # narrowing: the callee takes a plain value; None here would be a type error in the callee
+                    self.check(st, z3.Not(opt_isnone(v)), "safe", "not-none@argument-%s-of-%s" % (n, decl.qualname.split(".")[-1]), node)
+                    env[n] = opt_inner(v)
                 try:
                     env[n] = coerce(env[n], t)
                 except TypeError as e:
@@ -229,7 +277,7 @@ class ContractMixin:
     # ------------------------------------------------------------------ use of a contract at a call site
     def apply_contract(self, decl, args, kwargs, st, node, target):
         env = self.bind_params(decl.ast, args, kwargs, st, node, None)
-        env = self.coerce_args(decl, env, node)
+        env = self.coerce_args(decl, env, node, st)
         mod = st.env.get("__mod__")
         ci = self.instantiate(decl, env, st, mod=mod)
         callee = decl.qualname.split(".")[-2:] if "." in decl.qualname else [decl.qualname]
@@ -265,7 +313,14 @@ class ContractMixin:
             newv = fresh(fty, "hv_%s" % field)
             st.heap[key] = [z3.Store(a, ref.t, t) for a, t in zip(arrs, newv.terms)]
             st.written.add(key)
-        result = fresh(decl.returns, "ret_" + callee.split(".")[-1]) if not isinstance(decl.returns, TNone) else NONE
+            st.written_at.setdefault(key, []).append(ref.t)
+        if decl.opts.get("functional"):
+            # the callee's result is a function of its arguments (proved as `post:functional` on the callee):
+            # use the term itself, which is also meaningful under binders (comprehensions)
+            sp = dsl.REG.specs[decl.opts["functional"]]
+            result = self.apply_spec(sp, [env[n] for n in sp.params], st, node)
+        else:
+            result = fresh(decl.returns, "ret_" + callee.split(".")[-1]) if not isinstance(decl.returns, TNone) else NONE
         self.assume_wellformed_result(st, result)
         for lab, enode in ci.ensures:
             st.assume(self.eval_in_contract(ci, enode, st, {"result": result}))
@@ -308,7 +363,7 @@ class ContractMixin:
             flat += self.heap_arrays(st, owner, field, dsl.REG.classes[owner].fields[field])[1]
         result = Val(decl.returns, [f(*flat) for f in self.spec_ufs(decl)])
         key = (decl.qualname,) + tuple(z3.simplify(t).get_id() for t in flat)
-        if st.unfold_budget > 0 and key not in st.unfolded:
+        if st.unfold_budget > 0 and key not in st.unfolded and not decl.opts.get("uninterpreted"):
             st.unfolded.add(key)
             saved = st.unfold_budget
             st.unfold_budget -= 1
@@ -406,7 +461,10 @@ class ContractMixin:
                 seq_mode = True
                 ghosts["_i"] = mk_int(0)
                 ghosts["_iter"] = iterable
-            elif isinstance(iterable, Val) and isinstance(iterable.ty, TSet):
+            elif isinstance(iterable, Val) and isinstance(iterable.ty, (TSet, TLSet)):
+                if isinstance(iterable.ty, TLSet):
+                    self.note_assumption("iteration over a list known only by its element set visits each element once (order and duplicates abstracted)")
+                    iterable = Val(TSet(iterable.ty.elem), [iterable.terms[0]])
                 set_mode = True
                 ghosts["_seen"] = empty_set(iterable.ty.elem)
                 ghosts["_iter"] = iterable
@@ -424,7 +482,7 @@ class ContractMixin:
             return out
 
         # 1. discover the write set with one scratch pass over the body
-        wl, wh, types = self.discover_writes(node, st, kind, iterable)
+        wl, wh, types, wrefs = self.discover_writes(node, st, kind, iterable)
         # coerce entry values of locals to their loop types (e.g. [] -> Seq)
         types.update({n: t for n, t in ci.decl.opts.get("locals", {}).items() if n in wl})
         for n, ty in types.items():
@@ -444,7 +502,22 @@ class ContractMixin:
         for key in wh:
             owner, field = key
             fty = dsl.REG.classes[owner].fields[field]
-            st.heap[key] = [z3.Const(fresh_name("lpheap_%s" % field), a.sort()) for a in self.heap_arrays(st, owner, field, fty)[1]]
+            arrs = self.heap_arrays(st, owner, field, fty)[1]
+            refs = wrefs.get(key, [])
+            if refs and all(z3.is_const(r) and r.decl().kind() == z3.Z3_OP_UNINTERPRETED for r in refs):
+                # every write in the body goes to a loop-invariant object: havoc only there
+                new = list(arrs)
+                seen_ids = set()
+                for r in refs:
+                    if r.get_id() in seen_ids:
+                        continue
+                    seen_ids.add(r.get_id())
+                    hv = fresh(fty, "lp_%s" % field)
+                    new = [z3.Store(a, r, t) for a, t in zip(new, hv.terms)]
+                    st.written_at.setdefault(key, []).append(r)
+                st.heap[key] = new
+            else:
+                st.heap[key] = [z3.Const(fresh_name("lpheap_%s" % field), a.sort()) for a in arrs]
             st.written.add(key)
         if seq_mode:
             i = z3.Const(fresh_name("_i"), z3.IntSort())
@@ -525,15 +598,14 @@ class ContractMixin:
         s = st.clone()
         s.written = set()
         s.written_locals = set()
+        s.written_at = {}
         self.suppress += 1
+        wrefs = {}
         saved_ci_inv = None
         wl, wh, types = set(), set(), {}
         try:
             if kind == "for":
-                if isinstance(iterable.ty, TSeq):
-                    starts = list(self.assign(node.target, fresh(iterable.ty.elem, "_d"), s, node))
-                else:
-                    starts = list(self.assign(node.target, fresh(iterable.ty.elem, "_d"), s, node))
+                starts = list(self.assign(node.target, fresh(iterable.ty.elem, "_d"), s, node))
             else:
                 starts = [(s, ("normal",))]
             self.in_discovery += 1
@@ -544,6 +616,8 @@ class ContractMixin:
                     for s2, out in self.exec_block(node.body, s1):
                         wl |= s2.written_locals
                         wh |= s2.written
+                        for k_, rs_ in s2.written_at.items():
+                            wrefs.setdefault(k_, []).extend(rs_)
                         for n in s2.written_locals:
                             v = s2.env.get(n)
                             if isinstance(v, Val):
@@ -555,4 +629,4 @@ class ContractMixin:
         for t in ast.walk(node.target) if kind == "for" else []:
             if isinstance(t, ast.Name):
                 wl.discard(t.id)
-        return wl, wh, types
+        return wl, wh, types, wrefs
